@@ -13,7 +13,37 @@
 #include <cassert>
 #include <memory>
 
+#ifdef DSPLIB_VERIF
+#include <dsplib/verif_hooks.h>
+#endif
+
 namespace dsplib {
+
+#ifdef DSPLIB_VERIF
+namespace verif {
+cache_cb_t on_cache_access = nullptr;
+namespace {
+thread_local const LRUCache<int, std::shared_ptr<BaseFftPlanC>>* g_fft_cache = nullptr;
+thread_local const LRUCache<int, std::shared_ptr<BaseFftPlanR>>* g_rfft_cache = nullptr;
+
+template<class Cache>
+void report(int kind, int n, bool hit, const Cache& cache) {
+    if (on_cache_access != nullptr) {
+        const auto keys = cache.keys();
+        on_cache_access(kind, n, hit, keys.data(), int(keys.size()), cache.size(), &cache);
+    }
+}
+}   // namespace
+
+std::vector<int> fft_cache_keys() {
+    return (g_fft_cache != nullptr) ? g_fft_cache->keys() : std::vector<int>{};
+}
+
+std::vector<int> rfft_cache_keys() {
+    return (g_rfft_cache != nullptr) ? g_rfft_cache->keys() : std::vector<int>{};
+}
+}   // namespace verif
+#endif
 
 namespace {
 
@@ -52,11 +82,24 @@ std::shared_ptr<BaseFftPlanC> create_fft_plan(int n) {
 
     //TODO: use weak_ptr cache to prevent duplication
     thread_local LRUCache<int, std::shared_ptr<BaseFftPlanC>> cache{FFT_CACHE_SIZE};
+#ifdef DSPLIB_VERIF
+    verif::g_fft_cache = &cache;
+#endif
     if (!cache.exists(n)) {
         auto plan = _get_fft_plan(n);
         cache.put(n, plan);
+#ifdef DSPLIB_VERIF
+        verif::report(0, n, false, cache);
+#endif
         return plan;
     }
+#ifdef DSPLIB_VERIF
+    {
+        const auto& hit_plan = cache.get(n);
+        verif::report(0, n, true, cache);
+        return hit_plan;
+    }
+#endif
     return cache.get(n);
 }
 
@@ -66,11 +109,24 @@ std::shared_ptr<BaseFftPlanR> create_rfft_plan(int n) {
     }
 
     thread_local LRUCache<int, std::shared_ptr<BaseFftPlanR>> cache{FFT_CACHE_SIZE};
+#ifdef DSPLIB_VERIF
+    verif::g_rfft_cache = &cache;
+#endif
     if (!cache.exists(n)) {
         auto plan = _get_rfft_plan(n);
         cache.put(n, plan);
+#ifdef DSPLIB_VERIF
+        verif::report(1, n, false, cache);
+#endif
         return plan;
     }
+#ifdef DSPLIB_VERIF
+    {
+        const auto& hit_plan = cache.get(n);
+        verif::report(1, n, true, cache);
+        return hit_plan;
+    }
+#endif
     return cache.get(n);
 }
 
